@@ -123,7 +123,13 @@ def check_case(case, ctx):
         groups = ref.ref_groups(recs, keys)
         got = [tuple(x) for x in t[keys].itertuples(index=False, name=None)]
         if sorted(map(str, got)) != sorted(map(str, groups)):
-            continue  # C01's clause
+            # a unit attributed to another (or an invented) group: the groups it belongs to then do not hold "their
+            # counted votes from ... attributable unexpected units"; the rows present on both sides are still summed
+            only_t = sorted(map(str, set(got) - set(groups)))[:3]
+            only_r = sorted(map(str, set(groups) - set(got)))[:3]
+            viol("agg_group_set", f"{name}: groups only in the table {only_t}, only in the reference attribution {only_r}")
+            if len(set(got)) != len(got):
+                continue
         bref = None
         for e in req["estimands"]:
             cols = [f"pred_{e}"]
@@ -131,6 +137,8 @@ def check_case(case, ctx):
                 for a in req["alphas"]:
                     cols += [f"lower_{a}_{e}", f"upper_{a}_{e}"]
             for i, k in enumerate(got):
+                if k not in groups:
+                    continue
                 members = groups[k]
                 kinds = {("rep" if m["reporting"] else "non") if m["cat"] == ref.EXPECTED else "other" for m in members}
                 if "non" in kinds and len(kinds) > 1:
@@ -162,7 +170,7 @@ def check_case(case, ctx):
                 for a in req["alphas"]:
                     bref = bootstrap_reference_bounds(case, run, recs, keys, t, a)
                     for i, k in enumerate(got):
-                        if k in _called_keys(case, keys) or k in _stopped_keys(case, keys):
+                        if k not in groups or k in _called_keys(case, keys) or k in _stopped_keys(case, keys):
                             continue
                         diff, lq, uq, pred_ref, _ = bref[k]
                         pm = float(t["pred_margin"].iloc[i])
